@@ -47,12 +47,12 @@ type instrSpec struct {
 }
 
 type unitSpec struct {
-	Name         string            `json:"name"`
-	Package      string            `json:"package"` // repo-relative dir, e.g. pkg/tecdsa/retry
-	Test         string            `json:"test"`    // test function name
-	Files        map[string]string `json:"files"`   // injected name -> file under harness/<ID>/
-	Instrument   []instrSpec       `json:"instrument,omitempty"`
-	Race         bool              `json:"race,omitempty"`
+	Name       string            `json:"name"`
+	Package    string            `json:"package"` // repo-relative dir, e.g. pkg/tecdsa/retry
+	Test       string            `json:"test"`    // test function name
+	Files      map[string]string `json:"files"`   // injected name -> file under harness/<ID>/
+	Instrument []instrSpec       `json:"instrument,omitempty"`
+	Race       bool              `json:"race,omitempty"`
 	// RaceFocus: substrings of function names; a reported data race counts as a
 	// violation of this property only when one of its two access stacks has its
 	// innermost keep-core frame matching one of them (empty = every race counts).
@@ -84,22 +84,23 @@ type violation struct {
 }
 
 type result struct {
-	ID          string         `json:"id"`
-	Unit        string         `json:"unit"`
-	Evaluations int64          `json:"evaluations"`
-	Distinct    int64          `json:"distinct_nontrivial"`
-	States      int64          `json:"states"`
-	Transitions int64          `json:"transitions"`
-	Outcomes    []string       `json:"outcomes"`
-	OutcomeN    int            `json:"outcome_count"`
-	Samples     []any          `json:"samples"`
-	Violations  []violation    `json:"violations"`
-	Exhaustive  bool           `json:"exhaustive"`
-	Caps        []string       `json:"caps"`
-	Extra       map[string]any `json:"extra"`
-	Replayed    int64          `json:"replayed_twice"`
-	WallS       float64        `json:"wall_s"`
-	Finished    bool           `json:"finished"`
+	ID          string           `json:"id"`
+	Unit        string           `json:"unit"`
+	Evaluations int64            `json:"evaluations"`
+	Distinct    int64            `json:"distinct_nontrivial"`
+	States      int64            `json:"states"`
+	Transitions int64            `json:"transitions"`
+	Outcomes    []string         `json:"outcomes"`
+	OutcomeN    int              `json:"outcome_count"`
+	Samples     []any            `json:"samples"`
+	Violations  []violation      `json:"violations"`
+	Exhaustive  bool             `json:"exhaustive"`
+	Caps        []string         `json:"caps"`
+	Extra       map[string]any   `json:"extra"`
+	Sums        map[string]int64 `json:"sums"`
+	Replayed    int64            `json:"replayed_twice"`
+	WallS       float64          `json:"wall_s"`
+	Finished    bool             `json:"finished"`
 }
 
 type knownFinding struct {
@@ -282,14 +283,17 @@ func main() {
 		for k, v := range r.Extra {
 			key := r.Unit + "." + k
 			if f, ok := v.(float64); ok {
-				if cur, ok := extra[key].(float64); ok {
-					extra[key] = cur + f
-				} else {
+				if cur, ok := extra[key].(float64); !ok || f > cur {
 					extra[key] = f
 				}
 			} else if _, ok := extra[key]; !ok {
 				extra[key] = v
 			}
+		}
+		for k, v := range r.Sums {
+			key := r.Unit + "." + k
+			cur, _ := extra[key].(int64)
+			extra[key] = cur + v
 		}
 		for _, v := range r.Violations {
 			key := v.Fingerprint
